@@ -68,7 +68,7 @@ def gen_case(rng):
             assets.append(gen.gen_contract(rng, g, 'c%d' % j, gen.pick(rng, nodes), f, key))
     perm = rng.permutation(len(assets))
     assets = [assets[int(i)] for i in perm]
-    kind = gen.pick(rng, ['normal', 'sin', 'neg', 'neg']) if mode in ('nosimult', 'lp') else gen.pick(rng, ['normal', 'sin'])
+    kind = gen.pick(rng, ['normal', 'sin', 'neg', 'neg', 'tail_neg']) if mode in ('nosimult', 'lp') else gen.pick(rng, ['normal', 'sin', 'neg', 'tail_neg', 'tail_neg', 'head_neg'])
     return {'grid': g, 'assets': assets, 'prices': gen.gen_prices(rng, T, sorted(set(pk)), kind=kind)}, mode
 
 
